@@ -83,23 +83,20 @@ Qed.
 
 (* ---- the partition done under the queue lock ---- *)
 Lemma part_spec fn : forall q, let '(d, e, w) := part fn q in
-  Forall (fun m => oz (t_fn m) < fn) d /\ Forall (fun m => oz (t_fn m) = fn) e /\ Forall (fun m => fn < oz (t_fn m)) w
+  Forall (fun m => is_behind fn m = true) d /\ Forall (fun m => is_due fn m = true) e /\ Forall (fun m => is_ahead fn m = true) w
   /\ (forall x : txmsg -> bool, length (filter x q) = (length (filter x d) + length (filter x e) + length (filter x w))%nat)
-  /\ d = filter (fun m => oz (t_fn m) <? fn) q /\ e = filter (fun m => oz (t_fn m) =? fn) q /\ w = filter (fun m => fn <? oz (t_fn m)) q.
+  /\ d = filter (is_behind fn) q /\ e = filter (is_due fn) q /\ w = filter (is_ahead fn) q.
 Proof.
   induction q as [|m r IH]; cbn [part].
   - repeat split; constructor.
   - destruct (part fn r) as [[d e] w]. destruct IH as [H1 [H2 [H3 [H4 [H5 [H6 H7]]]]]].
-    cbn [filter]. destruct (oz (t_fn m) <? fn) eqn:E1.
-    + replace (oz (t_fn m) =? fn) with false by lia. replace (fn <? oz (t_fn m)) with false by lia.
-      repeat split; try assumption; try (constructor; [lia|assumption]); try (f_equal; assumption).
+    cbn [filter]. unfold is_behind, is_due, is_ahead in *. destruct (fn_delta (oz (t_fn m)) fn =? 0) eqn:E1; cbn [negb andb].
+    + repeat split; try assumption; try (constructor; [rewrite E1; reflexivity|assumption]); try (f_equal; assumption).
       intros x. cbn [filter]. destruct (x m); cbn [length]; rewrite H4; lia.
-    + destruct (oz (t_fn m) =? fn) eqn:E2.
-      * replace (fn <? oz (t_fn m)) with false by lia.
-        repeat split; try assumption; try (constructor; [lia|assumption]); try (f_equal; assumption).
+    + destruct (fn_delta (oz (t_fn m)) fn <? gsm_hyperframe / 2) eqn:E2; cbn [negb].
+      * repeat split; try assumption; try (constructor; [rewrite E1, E2; reflexivity|assumption]); try (f_equal; assumption).
         intros x. cbn [filter]. destruct (x m); cbn [length]; rewrite H4; lia.
-      * replace (fn <? oz (t_fn m)) with true by lia.
-        repeat split; try assumption; try (constructor; [lia|assumption]); try (f_equal; assumption).
+      * repeat split; try assumption; try (constructor; [rewrite E1, E2; reflexivity|assumption]); try (f_equal; assumption).
         intros x. cbn [filter]. destruct (x m); cbn [length]; rewrite H4; lia.
 Qed.
 
